@@ -8,7 +8,7 @@ from ..cfg import build_cfg, guards_of, parent_map
 from ..dataflow import assignments, self_attr_assignments
 from ..interp import Frame, Interp, ModRef, Obj, Opaque, Unsupported
 from ..specs import ADAPTIVE_LABELS, require_labels
-from ..src import AnalysisError, loc, norm, own_nodes
+from ..src import rename_id, AnalysisError, loc, norm, own_nodes
 
 SOLVER = "tdgl.solver.solver"
 RUNNER = "tdgl.solver.runner"
@@ -142,15 +142,16 @@ def retry_loop(ctx):
     kinds = {"success": 0, "giveup": 0}
     bad = []
     ctr = lp.target.id if isinstance(lp.target, ast.Name) else "?"
+    from ..dataflow import expanded_text
     for e in exits:
         gs = [(g, br) for g, br in guards_of(fn, e, pm) if isinstance(g, ast.If) and any(x is g for x in ast.walk(lp))]
-        t = [("" if br == "true" else "not ") + norm(g.test) for g, br in gs]
-        if isinstance(e, ast.Break) and t == [f"{res} is not None"]:
+        t = [("" if br == "true" else "not ") + rename_id(rename_id(expanded_text(fn, g.test, stop=(res, ctr)), ctr, "N"), res, "R") for g, br in gs]
+        if isinstance(e, ast.Break) and t == ["R is not None"]:
             kinds["success"] += 1
         elif isinstance(e, ast.Raise) and len(t) == 1 and t[0] in (
-                f"not options.adaptive or {ctr} > options.max_solve_retries",
-                f"{ctr} > options.max_solve_retries or not options.adaptive",
-                f"not options.adaptive or {ctr} >= options.max_solve_retries"):
+                "not self.options.adaptive or N > self.options.max_solve_retries",
+                "N > self.options.max_solve_retries or not self.options.adaptive",
+                "not self.options.adaptive or N >= self.options.max_solve_retries"):
             kinds["giveup"] += 1
         else:
             bad.append(f"L{e.lineno} {type(e).__name__} under {t}")
@@ -160,6 +161,9 @@ def retry_loop(ctx):
            message=f"retry loop exits: {kinds}, unexpected {bad}",
            consequence="exhausting the retries continues with an unsolved step, or a solvable step raises")
     # the multiplication
+    kwdefs = [n for n in own_nodes(fn) if isinstance(n, ast.Assign) and isinstance(n.value, ast.Call) and norm(n.value.func) == "dict"
+              and any(k.arg == "dt" for k in n.value.keywords)]
+    kwname = norm(kwdefs[0].targets[0]) if len(kwdefs) == 1 else "kwargs"
     mults = [n for n in ast.walk(lp) if isinstance(n, ast.Assign) and isinstance(n.value, ast.BinOp)
              and isinstance(n.value.op, ast.Mult) and "adaptive_time_step_multiplier" in norm(n.value)]
     ok = len(mults) == 1
@@ -168,9 +172,9 @@ def retry_loop(ctx):
         m = mults[0]
         tg = sorted(norm(t) for t in m.targets)
         det = {"stmt": norm(m)}
-        ok = tg == ["dt", "kwargs['dt']"] and norm(m.value) in ("dt * options.adaptive_time_step_multiplier",
-                                                                  "options.adaptive_time_step_multiplier * dt")
-        # ordering inside the loop body: [success test][give-up test][multiply][solve]
+        val = expanded_text(fn, m.value, stop=("dt",))
+        ok = tg == sorted(["dt", f"{kwname}['dt']"]) and val in ("dt * self.options.adaptive_time_step_multiplier",
+                                                                  "self.options.adaptive_time_step_multiplier * dt")
         order = [s for s in lp.body]
         pos = {id(s): i for i, s in enumerate(order)}
         ok = ok and id(m) in pos and id(inside[0]) in pos and pos[id(m)] < pos[id(inside[0])] and \
@@ -179,11 +183,10 @@ def retry_loop(ctx):
            detail=det, where=f.fq, construct="retry multiplication", loc=loc(f, mults[0]) if mults else loc(f, lp),
            message=f"retry step update is {[norm(m) for m in mults]}",
            consequence="a refused update is retried with the same step, or the step shrinks by the factor squared per retry")
-    kw = [n for n in own_nodes(fn) if isinstance(n, ast.Assign) and norm(n.targets[0]) == "kwargs"]
-    ok = len(kw) == 1 and isinstance(kw[0].value, ast.Call) and any(k.arg == "dt" and norm(k.value) == "dt" for k in kw[0].value.keywords) \
-        and all(norm(s.value).endswith("(**kwargs)") for s in solves)
+    ok = len(kwdefs) == 1 and any(k.arg == "dt" and norm(k.value) == "dt" for k in kwdefs[0].value.keywords) \
+        and all(norm(s.value).endswith(f"(**{kwname})") for s in solves)
     ctx.ob("R12.3", "the dt passed to the solve is the dt that is multiplied and returned", ok,
-           detail=[norm(k)[:120] for k in kw], where=f.fq, construct="kwargs['dt']", loc=loc(f, fn),
+           detail=[norm(k)[:120] for k in kwdefs], where=f.fq, construct="kwargs['dt']", loc=loc(f, fn),
            message="the step handed to solve_for_psi_squared is not the variable dt",
            consequence="the solve uses another step than the one reported")
     rets = [n for n in own_nodes(fn) if isinstance(n, ast.Return)]
